@@ -5,6 +5,19 @@ import Receptor.Generated.Facts
 -/
 namespace Receptor.Life
 
+/-- **Tie (translator)**: Cancel's steps (no pid: nothing; interrupt; "already finished": nothing; wait for
+the exit; then the final write, which leaves a succeeded record alone); the runner's writes in source
+order (pending 0, killed, running tick, error, succeeded, failed — all with the measured output size);
+Start writes pending before it launches the runner; AllocateUnit draws the ID and registers the unit
+under the index write lock. -/
+theorem C13_facts :
+    Receptor.Facts.life_cancel_order = "no-pid:return;signal(os.Interrupt);already-finished:return;wait;write-unless-succeeded(WorkStateCanceled)"
+    ∧ Receptor.Facts.life_cancel_keeps_succeeded = true
+    ∧ Receptor.Facts.life_runner_writes = "WorkStatePending:0;WorkStateFailed:stdoutSize(unitdir);WorkStateRunning:stdoutSize(unitdir);WorkStateFailed:stdoutSize(unitdir);WorkStateSucceeded:stdoutSize(unitdir);WorkStateFailed:stdoutSize(unitdir)"
+    ∧ Receptor.Facts.life_start_order = "write(WorkStatePending,0);launch"
+    ∧ Receptor.Facts.life_alloc_order = "Lock;defer-Unlock;generateUnitID(false);register"
+    ∧ Receptor.Facts.life_release = "for{err := RemoveAll;force:break;err != nil:attemptsLeft--,retry|return err;break};Lock;delete;return nil" := by decide +kernel
+
 /-- what the runner's phase says about the stored state -/
 def okFor (r : RPhase) (st : Nat) : Prop :=
   match r with
@@ -116,5 +129,13 @@ theorem released_is_unknown (t : Table) (id : ID) :
   · simp [known, release]
   · intro other ho
     simp [known, release, List.contains_eq_mem, ho]
+
+
+/-- **unforced_release_all_or_nothing.** A release that is not forced either succeeds and the unit is
+gone — from the index and from the disk — or fails and nothing has changed. -/
+theorem unforced_release_all_or_nothing (t : Table) (id : ID) (removeOK : Bool) :
+    ((releaseResult t id removeOK false).2 = true → known (releaseResult t id removeOK false).1 id = false)
+    ∧ ((releaseResult t id removeOK false).2 = false → (releaseResult t id removeOK false).1 = t) := by
+  cases removeOK <;> simp [releaseResult, known, release]
 
 end Receptor.Life
